@@ -53,6 +53,8 @@ var targets = []target{
 	{"node.go", "Node.findChildByText"},
 	{"file_considerer.go", "fileConsiderer.isFile"},
 	{"simple_tree_verifier.go", "defaultVerifierSimple.handleErr"},
+	{"node.go", "Node.validatePath"},
+	{"node.go", "Node.path"},
 }
 
 // struct types that are handled through pointers which the translated functions never find nil (a nil
@@ -76,18 +78,19 @@ type fnInfo struct {
 }
 
 type tr struct {
-	fset      *token.FileSet
-	files     map[string]*ast.File
-	consts    map[string]string   // name -> Lean expression
-	constType map[string]string   // name -> Lean type
-	sentinels map[string]bool     // error sentinel variables
-	sets      map[string][]string // package-level map[string]struct{}: keys (Lean expressions)
-	slices    map[string][]string // package-level []string
-	structs   map[string][][2]string
-	errStruct map[string]bool // struct types used as errors (have an Error method)
-	fns       map[string]*fnInfo
-	errs      []string
-	leanNames map[string]string
+	fset       *token.FileSet
+	files      map[string]*ast.File
+	consts     map[string]string   // name -> Lean expression
+	constType  map[string]string   // name -> Lean type
+	sentinels  map[string]bool     // error sentinel variables
+	sets       map[string][]string // package-level map[string]struct{}: keys (Lean expressions)
+	slices     map[string][]string // package-level []string
+	structs    map[string][][2]string
+	errStruct  map[string]bool // struct types used as errors (have an Error method)
+	fns        map[string]*fnInfo
+	errs       []string
+	leanNames  map[string]string
+	usesErrorf bool
 }
 
 var leanKeywords = map[string]bool{"at": true, "from": true, "end": true, "then": true, "do": true, "fun": true, "show": true, "have": true, "in": true, "with": true, "match": true, "let": true, "if": true, "else": true, "open": true, "where": true, "by": true, "instance": true, "structure": true, "def": true, "theorem": true, "namespace": true, "section": true, "variable": true, "universe": true, "import": true, "prefix": true, "infix": true, "notation": true, "macro": true, "syntax": true, "deriving": true, "extends": true, "class": true, "inductive": true, "mutual": true, "private": true, "protected": true, "partial": true, "unsafe": true, "local": true, "attribute": true, "export": true, "calc": true, "using": true, "suffices": true, "obtain": true, "return": true, "mut": true, "for": true, "unless": true, "try": true, "catch": true, "finally": true, "Type": true, "Prop": true, "Sort": true, "nil": true}
@@ -401,6 +404,12 @@ func (t *tr) callName(sc *scope, fun ast.Expr) (kind, name string) {
 			if p.Name == "strings" {
 				return "strings", f.Sel.Name
 			}
+			if p.Name == "fmt" && f.Sel.Name == "Errorf" {
+				return "errorf", ""
+			}
+			if p.Name == "fs" && f.Sel.Name == "ValidPath" {
+				return "fsvalid", ""
+			}
 			if sc != nil && sc.fn != nil && p.Name == sc.fn.rname && sc.fn.recv != "" {
 				return "method", f.Sel.Name
 			}
@@ -476,6 +485,9 @@ func (t *tr) expr(sc *scope, e ast.Expr) string {
 				return id(x.Sel.Name)
 			}
 			return id(p.Name) + "." + id(x.Sel.Name)
+		}
+		if inner, ok := x.X.(*ast.SelectorExpr); ok {
+			return t.expr(sc, inner) + "." + id(x.Sel.Name)
 		}
 		return t.fail(x.Pos(), "selector")
 	case *ast.UnaryExpr:
@@ -555,6 +567,18 @@ func (t *tr) expr(sc *scope, e ast.Expr) string {
 			args = append(args, t.expr(sc, a))
 		}
 		switch kind {
+		case "errorf":
+			// fmt.Errorf(format, string arguments…): the error value is its format and arguments
+			if len(args) >= 1 {
+				t.usesErrorf = true
+				return "(some (Err.Errorf " + args[0] + " [" + strings.Join(args[1:], ", ") + "]))"
+			}
+			return t.fail(x.Pos(), "fmt.Errorf")
+		case "fsvalid":
+			if len(args) == 1 {
+				return "(Go.fs_ValidPath " + args[0] + ")"
+			}
+			return t.fail(x.Pos(), "fs.ValidPath")
 		case "strings":
 			if n, ok := stringsFns[name]; ok && n == len(args) {
 				return "(Go.strings_" + name + " " + strings.Join(args, " ") + ")"
@@ -1393,12 +1417,16 @@ func (t *tr) render() string {
 	for _, k := range names {
 		visit(k, map[string]bool{})
 	}
+	var fb strings.Builder
 	for _, k := range order {
-		b.WriteString(t.function(t.fns[k]))
-		b.WriteString("\n")
+		fb.WriteString(t.function(t.fns[k]))
+		fb.WriteString("\n")
 	}
-	b.WriteString("end Gtree.Src\n")
-	return b.String()
+	out := b.String()
+	if t.usesErrorf {
+		out = strings.Replace(out, "deriving Repr, DecidableEq, BEq\n\n", "  | Errorf (format : Bytes) (args : List Bytes)\nderiving Repr, DecidableEq, BEq\n\n", 1)
+	}
+	return out + fb.String() + "end Gtree.Src\n"
 }
 
 func (t *tr) function(f *fnInfo) string {
